@@ -192,6 +192,34 @@ def _impl(tier, seed, search):
             except Exception: continue
             L.fail(f'twist-accepts:Twist2:{kind}', f'Twist2 accepted a 3x3 matrix that is not of se(2) form ({kind})', inp, observed=[np.asarray(a).tolist() for a in X.data])
         # ---- predicates ------------------------------------------------------------------------
+        # the exponential map and the two-vector frame over a grid of arguments (angles 1e-4 .. 3, generic non-unit non-perpendicular vectors):
+        # what the primitive constructors return is accepted by the predicates and by the class constructors
+        if it < 40:
+            ang_ = 10.0 ** (-4 + 4.5 * it / 39.0); axc_ = inputs.unit_axis(g); twc_ = np.r_[g.normal(size=3), axc_ * ang_]
+            oc_ = g.normal(size=3) * 10.0 ** g.uniform(-1, 1); ac_ = g.normal(size=3) * 10.0 ** g.uniform(-1, 1)
+            prods_ = [('trexp(w)', lambda: b.trexp(axc_ * ang_), 'SO3'), ('angvec2r', lambda: b.angvec2r(ang_, axc_ * 2.5), 'SO3'), ('rodrigues', lambda: b.rodrigues(axc_ * ang_), 'SO3'), ('trexp(S)', lambda: b.trexp(twc_), 'SE3'),
+                      ('trexp(unit S, theta)', lambda: b.trexp(np.r_[twc_[:3], axc_], ang_), 'SE3'), ('trexp2(theta)', lambda: b.trexp2(ang_), 'SO2'), ('trexp2(S)', lambda: b.trexp2(np.r_[twc_[:2], ang_]), 'SE2')]
+            if np.linalg.norm(np.cross(oc_, ac_)) > 0.2 * np.linalg.norm(oc_) * np.linalg.norm(ac_): prods_ += [('oa2r', lambda: b.oa2r(oc_, ac_), 'SO3'), ('oa2tr', lambda: b.oa2tr(oc_, ac_), 'SE3')]
+            for nm_, mk_, grp_ in prods_:
+                try: Mc_ = np.asarray(mk_(), float)
+                except Exception: continue
+                pr_ = dict(SO3=(b.isrot, SO3), SE3=(b.ishom, SE3), SO2=(b.isrot2, SO2), SE2=(b.ishom2, SE2))[grp_]
+                cinp = dict(constructor=nm_, angle=ang_, M=Mc_)
+                L.check(f'pred-accepts:{grp_}(grid)', bool(pr_[0](Mc_, True)) and bool(pr_[1].isvalid(Mc_)), cinp, f'the membership predicate for {grp_} rejects the matrix {nm_} returned (angle {ang_:.3g})', sig=f'pred-accepts:{grp_}')
+                L.noraise(f'ctor-accepts-valid(grid):{grp_}', lambda: pr_[1](Mc_), cinp, f'{grp_}(M) with the matrix {nm_} returned must be accepted', sig='ctor-accepts-valid(grid)')
+            for nm_, mk_ in (('Twist3(S).SE3()', lambda: Twist3(twc_).SE3()), ('Twist3(S).exp()', lambda: Twist3(twc_).exp()), ('SE3.Exp(S)', lambda: SE3.Exp(twc_)), ('SO3.Exp(w)', lambda: SO3.Exp(axc_ * ang_)), ('SO3.OA', lambda: SO3.OA(oc_, ac_))):
+                if nm_ == 'SO3.OA' and not np.linalg.norm(np.cross(oc_, ac_)) > 0.2 * np.linalg.norm(oc_) * np.linalg.norm(ac_): continue
+                ok_, X_ = L.noraise(f'class-constructor(grid):{nm_}', mk_, dict(constructor=nm_, angle=ang_), f'{nm_} for a valid argument', sig='class-constructor(grid):raises')
+                if ok_:
+                    okm_, why_ = holds_only_members(X_, type(X_).__name__)
+                    L.check(f'class-constructor(grid):{nm_}:member', okm_, dict(constructor=nm_, angle=ang_), f'{nm_} holds a non-member ({why_})', sig='class-constructor(grid)')
+        # a bare 3x3 array that is not a rotation matrix is not turned into a unit quaternion either
+        if it % 4 == 0:
+            for kind, Bad in defects('SO3', good('SO3')):
+                L.count('ctor-rejects(UnitQuaternion)', key=kind)
+                try: Xq_ = UnitQuaternion(Bad)
+                except Exception: continue
+                L.fail(f'ctor-accepts:UnitQuaternion:{kind}', f'UnitQuaternion(3x3 array) with a {kind} matrix did not raise', dict(cls='UnitQuaternion', defect=kind, value=Bad), observed=[np.asarray(a).tolist() for a in Xq_.data])
         # a fixed corpus of quaternion-to-matrix results whose rounding residue ||R R' - I|| is the largest an offline scan of 2e5 random
         # unit quaternions found (11 .. 13 eps): values produced by a primitive constructor, accepted by predicates and constructors
         if it == 0:
